@@ -1,0 +1,6 @@
+//go:build !verif
+
+package tss
+
+// verifLockHook is a no-op unless the library is built with the `verif` tag (verification instrumentation).
+func verifLockHook(*BaseParty, string) {}
